@@ -263,6 +263,9 @@ impl Check for C20 {
                 cases.push(Case::new(src, if anon { 1002 } else { 1001 }, format!("element target {} in position {}", t, pi)));
             }
         }
+        for (i, p) in super::evalorder::SCOPING_PROGRAMS.iter().enumerate() {
+            cases.push(Case::new(p.to_string(), 1003, format!("which declaration a name reaches, program {}", i)));
+        }
         ctx.judge(cases, |c, r, o| self.oracle(c, r, o))?;
         ctx.guard("a redeclaration in the same scope was rejected", g_redecl);
         ctx.guard("an undefined name was rejected", g_undef);
